@@ -33,7 +33,10 @@
    finished handling the connection request it may still carry them (a file
    only while it is owner-only, i.e. private to the server), and the directory
    may carry the default authorisation (the peer's ids); once the request has
-   been handled everything carries the authorised ids.                        *)
+   been handled everything carries the authorised ids.  The ownership and mode
+   sentences of the property speak about accepted connections: once the callback
+   has refused, only "nothing remains" (and "no access for other" for the
+   directory while it still exists) is required of that client's resources.   *)
 EXTENDS Naturals, Integers, Sequences, FiniteSets, TLC
 
 CONSTANTS Clients      \* client slots (positive integers)
@@ -47,7 +50,6 @@ vars == <<transport, srv, cl, res>>
 
 OwnerOnly == 384       \* 0600
 DirClass  == 0
-KnownClasses == 0..7
 
 NoClient == [st |-> "idle", cred |-> <<0, 0>>, args |-> <<>>, dec |-> 0, auth |-> <<0, 0, OwnerOnly>>,
              result |-> <<>>, msgs |-> 0]
@@ -61,7 +63,7 @@ Own(e)    == <<e[3], e[4]>>
 Auth(k)   == <<cl[k].auth[1], cl[k].auth[2]>>
 Chosen(k) == cl[k].auth[3]
 Refused(k)  == cl[k].st \in {"ref", "gone"}
-InHandshake(k) == cl[k].st \in {"conn", "acc", "ref"}
+InHandshake(k) == cl[k].st \in {"conn", "acc"}
 
 Init == transport = 0 /\ srv = <<0, 0>> /\ cl = [k \in Clients |-> NoClient] /\ res = {}
 
@@ -133,17 +135,17 @@ NoMsgFromRefused == \A k \in Clients : cl[k].msgs > 0 => cl[k].st \in {"acc", "e
 RefusedLeavesNothing == \A k \in Clients : cl[k].st = "gone" => Of(k) = {}
 
 (* everything under the prefix belongs to a known connection attempt *)
-ResKnown == \A e \in res : e[1] \in Clients /\ cl[e[1]].st # "idle" /\ e[2] \in KnownClasses
+ResKnown == \A e \in res : e[1] \in Clients /\ cl[e[1]].st # "idle"
 
 (* directory: never any access for "other" *)
 DirNoOther == \A e \in res : IsDir(e) => e[5] % 8 = 0
 
 (* files: "never more permissive than the mode it chose (by default owner-only),
    at any moment of their existence" *)
-FileModeWithinChosen == \A e \in res : (e[1] \in Clients /\ ~IsDir(e)) => SubMode(e[5], Chosen(e[1]))
+FileModeWithinChosen == \A e \in res : (e[1] \in Clients /\ ~IsDir(e) /\ ~Refused(e[1])) => SubMode(e[5], Chosen(e[1]))
 
 (* "owned by the user/group the accept callback authorised (by default the peer's)" *)
-OwnerAuthorised == \A e \in res : e[1] \in Clients =>
+OwnerAuthorised == \A e \in res : (e[1] \in Clients /\ ~Refused(e[1])) =>
   LET k == e[1] IN
     \/ Own(e) = Auth(k)
     \/ /\ InHandshake(k)
